@@ -95,6 +95,27 @@ T = {
   "Go race detector over generated concurrent workloads", "the detector sees only races the generated schedules execute", "non-trivial = >= 2 goroutines inside library code (workload definitions of the reused properties apply)"),
 }
 
+# additions made after the second round of seeded changes (appended to the descriptions above)
+EXTRA = {
+ "C01": " The library layer mixes tools/list and prompts/list requests with the calls in flight (ids of different request kinds must not collide).",
+ "C04": " Several DELETEs of one id at once (an op of the histories and TestC04DeleteRace: 2-12 DELETEs x 100-300 rounds): exactly one meets a live session.",
+ "C05": " Servers are configured with 0-2 pass-through middlewares.",
+ "C06": " TestC06Flood: a legacy-SSE peer stops reading its stream, posts 1-300 requests (error-answered, valid, mixed; padded) and leaves: other clients are served meanwhile and no goroutine remains.",
+ "C07": " Answers and argument echoes up to 200 KB, giants from 600 bytes, event ids with control characters, event streams delivered in pieces (a frame's blank line in a later read), repeated answers on stdio held between lookup and delivery (yield point); large well-formed notifications among the junk must reach their handler on the listening stream.",
+ "C08": " Further fault kinds: the pending calls are answered with HTTP 404 / 500 / 503 and a body (error, and the body is closed), and a legacy event stream that never announces its endpoint (the handshake ends with its context, Close releases it).",
+ "C09": " get-reconnect: the session's stream is replaced while senders are parked behind a stalled write, more senders write to the new stream when the parked ones get their turn (no overlapping Write calls, every frame parses, each message once over both streams).",
+ "C10": " _meta is spelled as map, mcp.Meta, struct or inside a hand-built Notification; 1-6 calls of other peers that left mid-stream precede the observed calls (their notifications must not surface anywhere).",
+ "C12": " TestC12Notif: 1-6 goroutines register notification handlers (names re-registered) while 1-3 client connections send notifications, on Streamable, legacy SSE and stdio servers: no crash, the handler registered throughout runs once per notification, and afterwards each name is served by a handler registered last.",
+ "C13": " One case in six repeats every client's request list 20-60 times (bursts of concurrent list requests under different filters).",
+ "C15": " Middleware kinds include failing with an error that wraps context.Canceled / DeadlineExceeded and stamping map results in place (a result object shared between requests shows foreign stamps).",
+ "C17": " TestC17Timed: real waits with attempts that take 0-60 ms: the gap between a failed attempt and the next is never shorter than the computed backoff (lower bound only; pre-1.23 timer-channel semantics as the library's go.mod implies). End to end, the legacy event stream is refused with 503 one to three times before it opens.",
+ "C18": " The corpus of recursive compile-time types has 17 shapes (pure-pointer mutual recursion, 3-cycles, cycles through maps and slices of pointers, two independent cycles in one type).",
+ "C19": " The configured URL may carry a query string (kept on every request kind); the first session DELETE may be answered 503 (the operation fails, the session id keeps being sent, a later terminate is sent again).",
+ "C20": " Roots providers are mutated (AddRoot / RemoveRoot) while roots/list requests are being answered; the client workload that once raced is replayed three times under the detector on every run.",
+}
+for _k, _v in EXTRA.items():
+    _t = list(T[_k]); _t[2] = _t[2] + _v; T[_k] = tuple(_t)
+
 def main():
     src = open(os.path.join(ROOT, "check")).read()
     props = sorted(set(re.findall(r'^    "(C\d\d)": dict\(', src, re.M)))
